@@ -12,6 +12,7 @@ import isa
 import jitmodel
 import terms as T
 from common import Ctx
+from facts import walk, callee_path
 from props.c03 import interp_paths, eq_substitution, specialise, UNSIGNED_IMM_JMP64
 
 LEVEL = "translation_validation"
@@ -46,19 +47,75 @@ def cl_paths(cm, v, d, s, sequential=True):
             regs = {k: x for k, x in regs.items() if x != init[k]}
             if ex is not None and ex[0] == "brif":
                 tgt, fall = ex[2], ex[3]
-                ok_blocks = _is_field(tgt, "1") and _is_field(fall, "0")
+                roles = successor_roles(cm)
+                ok_blocks = _is_field(tgt, roles.get("TARGET")) and _is_field(fall, roles.get("FALL"))
                 bad = [] if ok_blocks else ["brif successor blocks are not (target, fallthrough) of insn_targets"]
                 paths.append({"conds": base + [ex[1]], "regs": regs, "stores": stores, "atomics": atomics, "pc": "TARGET", "exit": None, "bad": bad})
                 paths.append({"conds": base + [T.lnot(ex[1])], "regs": regs, "stores": stores, "atomics": atomics, "pc": "FALL", "exit": None, "bad": bad})
             elif ex is not None and ex[0] == "jump":
-                paths.append({"conds": base, "regs": regs, "stores": stores, "atomics": atomics, "pc": "TARGET" if _is_field(ex[1], "1") else "?", "exit": None, "bad": []})
+                paths.append({"conds": base, "regs": regs, "stores": stores, "atomics": atomics, "pc": "TARGET" if _is_field(ex[1], successor_roles(cm).get("TARGET")) else "?", "exit": None, "bad": []})
             else:
                 paths.append({"conds": base, "regs": regs, "stores": stores, "atomics": atomics, "pc": p["pc"], "exit": ex, "bad": []})
     return paths, problems
 
 
 def _is_field(x, f):
-    return isinstance(x, tuple) and x and x[0] == "obj" and x[1].endswith("." + f)
+    return isinstance(x, tuple) and x and x[0] == "obj" and f is not None and x[1].endswith("." + f)
+
+
+_ROLES = {}
+
+
+def successor_roles(cm):
+    """which component of a jump instruction's entry in the successor table is the taken target and which the
+    fall-through: decided by evaluating the pass that fills the table (it files the block looked up under pc + 1 and
+    the block looked up under pc + 1 + off) - not by component order or name.  -> {"TARGET": field, "FALL": field}"""
+    F = cm.cx.F
+    if id(F) in _ROLES:
+        return _ROLES[id(F)]
+    import symex
+    import clmodel
+    roles = {}
+    try:
+        cands = [q for q, fn in F.fns.items() if q.startswith("cranelift::") and "{closure" not in q and fn.get("thir") and
+                 any(n.get("k") == "call" and (callee_path(n) or "").endswith("BTreeMap<K, V, A>::insert") for n in walk(fn["thir"]["body"]))]
+        for q in cands:
+            fn = F.fns[q]
+            ev = symex.Evaluator(F, models=clmodel.cl_models())
+            key = ("self", "roles")
+            st = symex.St().set(key, ev.sym_for("self", "cranelift::CraneliftCompiler"))
+            args, PC = [], T.V("PC", 64)
+            for prm in fn["thir"]["params"]:
+                ty = prm.get("ty") or ""
+                if "CraneliftCompiler" in ty or ty in ("&mut Self", "&Self"):
+                    args.append(("ref", ("pv", key)))
+                elif "FunctionBuilder" in ty:
+                    args.append(("obj", "bcx", ty))
+                elif ty == "usize":
+                    args.append(PC)
+                else:
+                    args.append(ev.sym_for("insn", ty))
+            outs = [(v, s2) for v, s2 in (ev.run_fn(q, args, st) or []) if s2.feasible]
+            if len(outs) != 1:
+                continue
+            eff = [e for e in outs[0][1].effects if e[0] == "call" and isinstance(e[1], str)]
+            entry_key = {e[3]: e[2][1] for e in eff if e[1].endswith("BTreeMap<K, V, A>::entry") and len(e) > 3}
+            got = {e[3]: entry_key.get(e[2][0]) for e in eff if e[1].endswith("::or_insert_with") and len(e) > 3}
+            pc32 = T.trunc(32, PC)
+            for e in eff:
+                if e[1].endswith("BTreeMap<K, V, A>::insert") and isinstance(e[2][2], tuple) and e[2][2][:1] == ("struct",):
+                    for fname, val in e[2][2][3]:
+                        k = got.get(val)
+                        if k is None:
+                            continue
+                        if k == T.op("add", 32, pc32, T.K(32, 1)):
+                            roles["FALL"] = fname
+                        elif "insn.off" in repr(k) or "try_into" in repr(k):
+                            roles["TARGET"] = fname
+    except Exception:
+        roles = {}
+    _ROLES[id(F)] = roles
+    return roles
 
 
 def compare(ips, cps, desc, legacy=False):
